@@ -1054,23 +1054,9 @@ pub fn run_case(case: &Case, stats: &mut Stats) -> RunReport {
                     }
                 }
                 stats.bump("rule.R1.evaluated");
-                let saved = world::with(|s| {
-                    let saved = s.env.clone();
-                    for name in gen::LOOKALIKE_ENVS.iter().chain(gen::ENVS.iter()).chain(
-                        ["BPAF_V_G", "BPAF_V_H"].iter(),
-                    ) {
-                        if declared.contains(name) {
-                            continue;
-                        }
-                        let k = name.as_bytes().to_vec();
-                        if s.env.remove(&k).is_none() {
-                            s.env.insert(k, b"13".to_vec());
-                        }
-                    }
-                    saved
-                });
+                let saved = crate::c04::scramble_undeclared(&declared);
                 let framed = run_on(l, op);
-                world::with(|s| s.env = saved);
+                crate::c04::unscramble(&declared, saved);
                 if !framed.same_result(&first) {
                     violation!(
                         "R1",
